@@ -16,7 +16,9 @@ PROJECT_FILES = {
     'vf_rt.py': 'from vf.dynrt import v, q, it, cm, m, d, dd, kb, km, call, ex, et\n',
     'pkg/__init__.py': 'from vf_rt import v\npa = v()\ndef pf():\n    return v()\n',
     'pkg/mod.py': 'from vf_rt import v\nma = v()\nmb = v()\ndef mf():\n    return v()\nclass MK:\n    pass\n_hidden = v()\n',
-    'pkg/star.py': 'from vf_rt import v as _v\nsa = _v()\nsb = _v()\ndef sf():\n    return _v()\n',
+    'pkg/star.py': ('from vf_rt import v as _v\nsa = _v()\nsb = _v()\ndef sf():\n    return _v()\n'
+                    # module-level names made through global declarations, in a function called at import and in a class body
+                    'def _init():\n    global sg\n    sg = _v()\n_init()\nclass _K:\n    global sk\n    sk = _v()\n'),
     'pkg/star2.py': 'from vf_rt import v as _v\nx = _v()\ny = _v()\nsc = _v()\n',
     'pkg/sub/__init__.py': '',
     'pkg/sub/deep.py': 'from vf_rt import v\nda = v()\n',
@@ -51,7 +53,7 @@ IMPORTS_PROJECT = [
     ('from . import sib', ['sib'], False),
     ('from .sib import s1', ['s1'], False),
     ('from .sib import s1 as y, s2', ['y', 's2'], False),
-    ('from pkg.star import *', ['sa', 'sb', 'sf'], True),
+    ('from pkg.star import *', ['sa', 'sb', 'sf', 'sg', 'sk'], True),
     ('from pkg.star2 import *', ['x', 'y', 'sc'], True),
     ('from .sib import *', ['s1', 's2'], True),
 ]
@@ -118,6 +120,7 @@ class Gen(object):
         self.stmts = 0
         self.max_stmts = max_stmts
         self.decisions = 0
+        self.leaving = -1
         self.max_decisions = max_decisions
         self.max_depth = max_depth
         self.stdlib_left = list(IMPORTS_STDLIB)
@@ -260,6 +263,8 @@ class Gen(object):
             made += 1
             if self.lines and self.lines[-1].strip().split(' ')[0] in ('return', 'raise', 'break', 'continue'):
                 return      # nothing is generated after a statement that leaves the block (no dead code)
+            if self.leaving == len(self.lines):
+                return
         if force:
             # every direct block of an 'all paths bind it' statement ends by binding the variable
             self.emit(ind, '%s = %s' % (force[0], self.expr(scope)))
@@ -496,7 +501,15 @@ class Gen(object):
         # supp's handler region joins 'before the try' and 'end of the try body': exact when both raise points
         # exist; other placements are a known finding (witnesses), so most generated trys have both
         where = 'both' if self.c03 else rng.choice(['first', 'last', 'both', 'both', 'both', 'both', 'both', 'both'])
+        # try/finally without a handler: the body has no raise point of its own (an exception would leave the program),
+        # so the statements after it run exactly when the body completed
+        bare = rng.random() < 0.12
+        if bare:
+            where = 'none'
+            force_finally = True
+            self.features.add('try_finally_without_handler')
         pre = set(scope.definite)
+        terminated = []
 
         def body():
             nonlocal where
@@ -504,6 +517,7 @@ class Gen(object):
                 self.emit(ind + 1, raising)
             self.block(ind + 1, scope, depth + 1, in_loop)
             if self.lines[-1].strip().split(' ')[0] in ('return', 'raise', 'break', 'continue'):
+                terminated.append(1)
                 where = 'first' if where == 'both' else where
                 if where == 'last':
                     return
@@ -528,7 +542,9 @@ class Gen(object):
                 self.features.add('handler_type_reads_name')
                 return 'et(%s, %s)' % (self.readable(tscope), e)
             return e
-        if form == 'each' or len(excs) == 1:
+        if bare:
+            pass
+        elif form == 'each' or len(excs) == 1:
             for e in excs:
                 handlers.append('except %s' % etype(e))
         elif form == 'tuple':
@@ -558,7 +574,7 @@ class Gen(object):
                     self.emit(ind + 1, 'raise')                              # the handler re-raises
                     self.features.add('handler_reraises')
             outs.append(self.branch(scope, hbody))          # a handler starts from the state before the try
-        if rng.random() < 0.3:
+        if not bare and rng.random() < 0.3:
             scope.definite = set(d_body)
             self.emit(ind, 'else:')
             d_body = self.branch(scope, lambda: self.block(ind + 1, scope, depth + 1, in_loop))
@@ -574,6 +590,8 @@ class Gen(object):
             after |= d_fin
             self.features.add('finally')
         scope.definite = after
+        if bare and terminated:
+            self.leaving = len(self.lines)     # nothing directly after this statement is reachable
 
     def s_with(self, ind, scope, depth, in_loop):
         rng = self.rng
@@ -582,6 +600,13 @@ class Gen(object):
         if r < 0.5:
             self.emit(ind, 'with cm(%s) as %s:' % (self.readable(scope) if rng.random() < 0.5 else '', a))
             names = [a]
+        elif r < 0.6:
+            # three items chained through their targets; the first target may also be bound before the statement
+            b, c = rng.sample([n for n in VARS if n != a], 2)
+            self.emit(ind, 'with cm(%s) as %s, cm(%s) as %s, cm(%s, %s) as %s:' % (
+                self.readable(scope) if rng.random() < 0.5 else '', a, a, b, a, b, c))
+            names = [a, b, c]
+            self.features.add('with_three_items')
         elif r < 0.85:
             b = self.pick_var(scope)
             if b == a:
